@@ -113,6 +113,12 @@ _ser = [
       "a map entry with a typed (non-string) key is stored as exactly that key/value pair (all i32 keys, all f64 values bitwise)", timeout=300),
     H("struct_serializer_field_is_stored_under_its_name", "C13.K.frame.struct_field", SER, ["SerializeStruct for MapSerializer::serialize_field", "SerializeStruct for MapSerializer::end", "Serializer for AnySerializer::serialize_struct"],
       "a struct field is stored under its name with its value", timeout=300),
+    H("sequences_of_u8_stay_sequences", "C13.K.frame.u8_sequences", SER, ["SerializeSeq for SeqSerializer::serialize_element", "SerializeSeq for SeqSerializer::end", "Serializer for AnySerializer::serialize_tuple", "Serializer for AnySerializer::serialize_seq", "Serializer for AnySerializer::serialize_tuple_struct"],
+      "a list / tuple / tuple struct whose elements are all u8 stays a sequence of u8 (binary only arrives through serialize_bytes)", timeout=300),
+    H("null_elements_and_fields_are_kept", "C13.K.frame.null_payloads", SER, ["SerializeSeq for SeqSerializer::serialize_element", "SerializeStruct for MapSerializer::serialize_field"],
+      "unit / None elements and struct fields keep their slot (stored as null)", timeout=300),
+    H("struct_variant_fields_are_kept", "C13.K.frame.struct_variant", SER, ["SerializeStructVariant for StructVariantSerializer::serialize_field", "SerializeStructVariant for StructVariantSerializer::end", "Serializer for AnySerializer::serialize_struct_variant"],
+      "a struct variant is stored as {variant: {field: value}}, null-valued fields included", timeout=300),
     H("map_serializer_key_then_value", "C13.K.frame.map_key", SER, ["SerializeMap for MapSerializer::serialize_key", "Serializer for AnySerializer::serialize_map"],
       "serialize_key holds the typed key until the value arrives; nothing is inserted yet"),
     H("map_serializer_value_without_key_is_error", "C13.K.frame.map_value_without_key", SER, ["SerializeMap for MapSerializer::serialize_value"],
